@@ -125,6 +125,12 @@ def layouts(games):
     long_ev = '[Event "' + 'x' * (255 - len('[Event ""]') - 1) + '"]'
     g7 = [game_lines(b, d, PBN_VUL[v], t, extra_before=[long_ev]) for b, d, v, t in games]
     L.append(('a legal 255-character line (254 + newline)', join(g7, sep=[''])))
+    # (a reader that takes the file in bounded pieces sees the end of such a line as a piece of its own: a bare line end must not be taken for
+    # the empty line between games)
+    for nvis, eol_ in ((255, '\n'), (254, '\r\n'), (255, '\r\n'), (510, '\n'), (256, '\n')):
+        lev = '[Event "' + 'x' * (nvis - len('[Event ""]')) + '"]'
+        gl = [game_lines(b, d, PBN_VUL[v], t, extra_before=[lev]) for b, d, v, t in games]
+        L.append((f'an extra tag on a line of {nvis} visible characters ({"CRLF" if eol_ != chr(10) else "LF"})', join(gl, sep=[''], eol=eol_)))
     g8 = [game_lines(b, d, sp, t) for (b, d, v, t), sp in zip(games, [VUL_SPELLINGS[v][-1] for _, _, v, _ in games])]
     L.append(('alternative vulnerability spellings', join(g8, sep=[''])))
     g9 = [[x.replace('[', '[ ', 1).replace(']', ' ]') if x.startswith('[Dealer') else x for x in g] for g in base]
@@ -221,6 +227,10 @@ def writer_rule(chk, rule='C18.R6'):
         [dict(num=5, dealer='W', dn=names[1], c=(None, False, False, 'BOTH', None), tricks=None, names=('a b', 'c', 'd', 'e')),
          dict(num=6, dealer='N', dn=names[3 % len(names)], c=('C1', False, False, 'EW', 'N'), tricks=7, names=(long_name, 'n', 'e', 's')),
          dict(num=7, dealer='E', dn=names[0], c=(None, False, False, 'NONE', None), tricks=None, names=('w', 'n', 'e', 's'))],
+        # names over the alphabet of the property, incl. the characters PBN gives a meaning in other places (#, ##, :, +, parentheses, quotes' neighbours)
+        [dict(num=8, dealer='S', dn=names[2], c=('D2', False, False, 'NS', 'S'), tricks=8, names=('##12 Winter pairs', '#', "O'Neil (sub)", 'A+B: c/d'), event='## (sub)', site='#1, Club-house_2'),
+         dict(num=9, dealer='W', dn=names[1], c=('NT1', False, True, 'EW', 'W'), tricks=7, names=('###', 'N.N.', '-', '( )'), event='#', site='##'),
+         dict(num=10, dealer='N', dn=names[0], c=(None, False, False, 'BOTH', None), tricks=None, names=('w', '#', '##', 's'), event='Ev', site='Si')],
     ]
     n = 0
     for si, seq in enumerate(seqs):
@@ -232,7 +242,7 @@ def writer_rule(chk, rule='C18.R6'):
             wr = f._construct(wci, [], {'writer': out})
             for b in seq:
                 bid, x, xx, vul, decl = b['c']
-                f.call_method(wr, 'write_board_result', event='Ev', site='Si', date=ADate(), board_num=b['num'], west_player=b['names'][0], north_player=b['names'][1],
+                f.call_method(wr, 'write_board_result', event=b.get('event', 'Ev'), site=b.get('site', 'Si'), date=ADate(), board_num=b['num'], west_player=b['names'][0], north_player=b['names'][1],
                               east_player=b['names'][2], south_player=b['names'][3], dealer=players[b['dealer']], deal=hands(b['dn']), scoring=scoring,
                               contract=contract(bid, x, xx, vul, decl), taken_tricks=b['tricks'])
         except FoldRaise as r:
@@ -278,7 +288,7 @@ def writer_rule(chk, rule='C18.R6'):
             else:
                 nm = bid
                 ctext = (nm[-1] + nm[:-1]) + ('XX' if xx else 'X' if x else '')       # '3NT', '4SX', '7HXX', '1C'
-            want = {'Event': 'Ev', 'Site': 'Si', 'Date': '2026.09.29', 'Board': str(b['num']), 'West': b['names'][0], 'North': b['names'][1], 'East': b['names'][2],
+            want = {'Event': b.get('event', 'Ev'), 'Site': b.get('site', 'Si'), 'Date': '2026.09.29', 'Board': str(b['num']), 'West': b['names'][0], 'North': b['names'][1], 'East': b['names'][2],
                     'South': b['names'][3], 'Dealer': b['dealer'], 'Vulnerable': PBN_VUL[vul], 'Deal': pbn_oracle(deals[b['dn']], b['dealer']), 'Scoring': 'IMP',
                     'Declarer': '' if passed else decl, 'Contract': ctext, 'Result': '' if passed else str(b['tricks'])}
             if len(b['names'][0]) > 200:
